@@ -3,7 +3,7 @@ import os, subprocess
 import vcommon as V
 
 VT = dict(STAGE=1, GVT=2, GVT_DRAIN=3, PROC=4, FORWARD=5, ROLLBACK=6, ANTI=7, UNDO=8, SILENT=9, CKPT=10, COMMIT=11,
-          FOSSIL=12, FINI_ENTRY=13, TERM_VOTE=14, MSG_ALLOC=15, MSG_FREE=16, STATS_GVT=17, EXTRACT=18)
+          FOSSIL=12, FINI_ENTRY=13, TERM_VOTE=14, MSG_ALLOC=15, MSG_FREE=16, STATS_GVT=17, EXTRACT=18, GVT_PHASE=19)
 VTN = {v: k for k, v in VT.items()}
 
 
@@ -45,11 +45,13 @@ def run_sim(exe, prog, mode="parallel", threads=2, ckpt=0, gvt=1000, tend=0, sta
     r = SimResult()
     r.rc, r.out, r.err = rc, so, se
     r.final = [l for l in so.split("\n") if l.startswith("F ")]
+    if ranks > 1:
+        r.final = sorted(r.final, key=lambda l: int(l.split()[1]))
     r.hang = None
     for l in so.split("\n"):
         if l.startswith("HANG"):
             r.hang = l
-    r.returned = any(l.startswith("RET 0") for l in so.split("\n"))
+    r.returned = sum(1 for l in so.split("\n") if l.startswith("RET 0")) == ranks
     r.sanitizer = ("ERROR: AddressSanitizer" in se) or ("runtime error:" in se)
     r.cmd = " ".join(cmd)
     return r
